@@ -4,7 +4,16 @@
 use crate::tree::*;
 
 const MODEL_DEPTH_CAP: usize = 200;
-pub const LIMIT_ZONE: usize = 80;
+/// where the implementation-limit zone for nesting starts.  80 is toml_edit's constant today; the checks set it to
+/// what the library under test actually enforces (observed on reference documents), so that a changed limit moves
+/// the zone instead of turning every document near the old limit into a disagreement
+static LIMIT_ZONE_V: std::sync::atomic::AtomicUsize = std::sync::atomic::AtomicUsize::new(80);
+pub fn limit_zone() -> usize {
+    LIMIT_ZONE_V.load(std::sync::atomic::Ordering::Relaxed)
+}
+pub fn set_limit_zone(n: usize) {
+    LIMIT_ZONE_V.store(n, std::sync::atomic::Ordering::Relaxed);
+}
 const U1_RULE: &str = "U1: dotted key through a table that exists only implicitly via headers";
 
 type R<T> = Result<T, Reject>;
@@ -400,7 +409,7 @@ impl<'a> P<'a> {
                 break;
             }
         }
-        if path.len() >= LIMIT_ZONE {
+        if path.len() >= limit_zone() {
             self.limits.depth = true;
         }
         let n = segs.len();
@@ -619,7 +628,7 @@ impl<'a> P<'a> {
     /// below its statement.  The implementation-limit zone starts where the 80th nested container is opened.
     fn value(&mut self, depth: usize) -> R<Node> {
         let start = self.i;
-        if depth >= LIMIT_ZONE || (depth + 1 >= LIMIT_ZONE && matches!(self.peek(), Some(b'[') | Some(b'{'))) {
+        if depth >= limit_zone() || (depth + 1 >= limit_zone() && matches!(self.peek(), Some(b'[') | Some(b'{'))) {
             self.limits.depth = true;
         }
         if depth > MODEL_DEPTH_CAP {
